@@ -101,6 +101,8 @@ CONFIGS = [
     dict(name='ext3-4k', fstype='ext3', bs=4096, blocks=4096, features=[], extra=[]),
     dict(name='ext2-1k', fstype='ext2', bs=1024, blocks=8193, features=[], extra=[]),
     dict(name='ext2-1k-nodirindex-legacyhash', fstype='ext2', bs=1024, blocks=8193, features=['^dir_index'], extra=['-g', '2048']),
+    dict(name='ext4-1k-oddtail', fstype='ext4', bs=1024, blocks=20004, features=[], extra=[]),          # last group of 3619 blocks: not a multiple of 8
+    dict(name='ext2-1k-8192', fstype='ext2', bs=1024, blocks=8192, features=[], extra=[]),               # one group of 8191 blocks
     dict(name='ext2-2k-rev0ish', fstype='ext2', bs=2048, blocks=4096, features=['^resize_inode', '^ext_attr', '^dir_index', '^sparse_super', '^large_file'], extra=[]),
 ]
 # MMP makes every tool run sleep for the update interval: kept out of the general sweeps, used by C13 only
@@ -181,9 +183,10 @@ def build_image(tools, img, cfg, recipe, blobdir, rnd, index_dirs=True):
 # op = (kind, a, b): 0 dir with `a` entries of name length `b` (name prefix variant from b: plain / leading dots / dashes / high bytes); 1 regular file of size a*b bytes (+1 if b odd);
 # 2 symlink of length a; 3 xattr (value length a) on a new file; 4 sparse file (hole of a blocks, then b bytes);
 # 5 extent files mixing written and unwritten extents that are logically and physically adjacent, in a needlessly deep tree (root split with the debugfs extent editor);
-# 6 split the extent-tree root of an existing template file (tree deeper than needed -> e2fsck offers to rebuild it)
+# 6 split the extent-tree root of an existing template file (tree deeper than needed -> e2fsck offers to rebuild it);
+# 7 inode filler: use up (almost) all free inodes with directories and files spread over the groups, then free every third one and empty whole directory blocks
 NAME_PREFIX = ['', '', '', '.', '..', '..a', '...', '-', '~', '#', '\xc3\xa9', '\xff\xfe']
-NKINDS = 7
+NKINDS = 8
 def extras_script(ops, blobdir, bs):
     c = []
     for i, (kind, a, b) in enumerate(ops):
@@ -216,10 +219,27 @@ def extras_script(ops, blobdir, bs):
     return c
 
 def extras_apply(tools, img, ops, blobdir, bs, extent_fs=True):
-    """runs the generated population; kind 5 needs a block lookup between two debugfs runs"""
+    """runs the generated population; kind 5 needs a block lookup between two debugfs runs, kind 7 the current free inode count"""
     ops = [tuple(o) for o in ops]
     scr = extras_script(ops, blobdir, bs)
     if scr: tools.dbg(img, scr, write=True, cpu=180)
+    for i, (kind, a, b) in enumerate(ops):
+        if kind % NKINDS != 7: continue
+        try:
+            import struct as _st
+            with open(img, 'rb') as fh: fh.seek(1024 + 0x10); free = _st.unpack('<I', fh.read(4))[0]
+        except Exception: continue
+        n = min(free - (a % 4), 600)
+        if n < 8: continue
+        c = []; ndirs = max(2, n // 12); left = n - ndirs; names = []
+        for k in range(ndirs): c.append('mkdir z%d_%03d' % (i, k))
+        k = 0
+        while left > 0:
+            dname = 'z%d_%03d' % (i, k % ndirs); nm = '%s/e%04d%s' % (dname, k, 'w' * (40 + b % 150)); c.append('write /dev/null %s' % nm); names.append(nm); left -= 1; k += 1
+        # free every third inode again, and remove whole runs so that some directory blocks end up without a live entry
+        for j, nm in enumerate(names):
+            if j % 3 == 0 or (ndirs <= (j % (ndirs * 6))): c.append('rm %s' % nm)
+        tools.dbg(img, c, write=True, cpu=300)
     for i, (kind, a, b) in enumerate(ops):
         if kind % NKINDS != 5 or not extent_fs: continue
         nw = 4 + a % 20; nu = 4 + b % 40
